@@ -7,7 +7,7 @@
 static Profile profile_for(const std::string& mode) {
   Profile p;
   if (mode == "C03") { p.p_aligned = 70; p.w_realloc = 14; p.w_expand = 3; p.w_heap = 2; p.w_talloc = 0; }
-  else if (mode == "C04") { p.p_zero = 55; p.w_realloc = 16; p.zchains = true; p.w_tfree = 4; p.w_heap = 5; p.w_churn = 4; }
+  else if (mode == "C04") { p.p_zero = 55; p.w_realloc = 16; p.w_zchain = 14; p.w_tfree = 4; p.w_heap = 5; p.w_churn = 4; }
   else if (mode == "C05") { p.w_realloc = 30; p.w_expand = 5; p.w_alloc = 25; }
   else if (mode == "C06") { p.w_edge = 25; p.big_ok = false; }
   else if (mode == "C10") { p.w_heap = 16; p.p_heap_api = 60; p.w_tfree = 3; p.arenas = true; p.big_ok = false; }
@@ -27,7 +27,6 @@ struct HistHarness : eng::Harness {
     Case special; if (generate_special(mode, ch, idx, special)) return special;
     Profile pf = profile_for(mode); Gen g(ch, pf);
     if (mode == "C13") gen_option_prefix(g);
-    if (mode == "C04" && ch.chance(1, 2)) { gen_zero_chain_case(g); return g.out; }
     Case c = g.history();
     return c;
   }
